@@ -194,7 +194,8 @@ type IntentOp struct {
 	PrioIx int       `json:"prio_ix"`        // abstract priority choice, resolved against live owners
 	Keep   bool      `json:"keep,omitempty"` // set: keep the owner's current priority if it is live
 	Leaves []LeafSel `json:"leaves,omitempty"`
-	Form   string    `json:"form,omitempty"` // typed | string | json
+	Frags  []int     `json:"frags,omitempty"` // indices into vlib.Fragments (constraint subtree content)
+	Form   string    `json:"form,omitempty"`  // typed | string | json
 }
 
 type Step struct {
@@ -380,16 +381,13 @@ type ResolvedIntent struct {
 // ResolveStep turns abstract ops into concrete requests given the model.
 func (m *Model) ResolveStep(u *Universe, palette []string, st Step) []ResolvedIntent {
 	var res []ResolvedIntent
-	used := map[int32]bool{}
-	inStep := map[string]bool{}
-	for _, op := range st.Intents {
-		inStep[OwnerName(op.Owner)] = true
-	}
+	// priorities are pairwise distinct among owners, also against the old
+	// priority of owners that are changed or deleted in this very step
+	used := map[int32]string{}
 	for name, it := range m.Intents {
-		if !inStep[name] {
-			used[it.Prio] = true
-		}
+		used[it.Prio] = name
 	}
+	free := func(p int32, name string) bool { o, taken := used[p]; return !taken || o == name }
 	seenOwner := map[string]bool{}
 	for _, op := range st.Intents {
 		name := OwnerName(op.Owner)
@@ -399,19 +397,18 @@ func (m *Model) ResolveStep(u *Universe, palette []string, st Step) []ResolvedIn
 		seenOwner[name] = true
 		cur, existed := m.Intents[name]
 		ri := ResolvedIntent{Name: name, Kind: op.Kind, Form: op.Form, Existed: existed}
-		// priority: pairwise distinct among live owners (precondition of C01)
-		if existed && (op.Keep || op.Kind != "set") && !used[cur.Prio] {
+		if existed && (op.Keep || op.Kind != "set") {
 			ri.Prio = cur.Prio
 		} else {
 			for i := 0; i < len(PrioPool); i++ {
 				cand := PrioPool[(op.PrioIx+i)%len(PrioPool)]
-				if !used[cand] {
+				if free(cand, name) {
 					ri.Prio = cand
 					break
 				}
 			}
 		}
-		used[ri.Prio] = true
+		used[ri.Prio] = name
 		if op.Kind == "set" {
 			ri.Explicit = Conf{}
 			var order []string
@@ -421,6 +418,15 @@ func (m *Model) ResolveStep(u *Universe, palette []string, st Step) []ResolvedIn
 				if _, dup := ri.Explicit[k]; !dup {
 					ri.Explicit[k] = v
 					order = append(order, k)
+				}
+			}
+			for _, fi := range op.Frags {
+				fr := Fragments[fi%len(Fragments)]
+				for _, k := range fr.Leaves.SortedKeys() {
+					if _, dup := ri.Explicit[k]; !dup {
+						ri.Explicit[k] = fr.Leaves[k]
+						order = append(order, k)
+					}
 				}
 			}
 			ri.Explicit = FilterOneCasePerChoice(order, ri.Explicit)
@@ -831,7 +837,23 @@ func (h *HistEnv) SetRequest(txid string, reqs []*sdcpb.TransactionIntent, repla
 			return nil, err
 		}
 	}
-	return h.DS.TransactionSet(h.Ctx, txid, tis, rti, h.Timeout, dryRun)
+	// a wedged transaction slot makes TransactionSet spin until its context
+	// ends; bound it so that the harness never hangs on that
+	ctx, cancel := context.WithTimeout(h.Ctx, 15*time.Second)
+	defer cancel()
+	return h.DS.TransactionSet(ctx, txid, tis, rti, h.Timeout, dryRun)
+}
+
+// FreeSlot releases the transaction slot after a non-success outcome without
+// asserting anything (what those outcomes leave behind is C06's subject).
+func (h *HistEnv) FreeSlot(txid string) bool {
+	if _, open, _ := h.DS.VerifPeekTransaction(); !open {
+		return true
+	}
+	_ = h.DS.TransactionCancel(h.Ctx, txid)
+	_ = h.DS.TransactionConfirm(h.Ctx, txid)
+	_, open, _ := h.DS.VerifPeekTransaction()
+	return !open
 }
 
 func IntentErrorsOf(rsp *sdcpb.TransactionSetResponse) map[string][]string {
@@ -866,6 +888,7 @@ func (h *HistEnv) SubmitStep(st Step) *StepResult {
 	}
 	res.IntentErrors = IntentErrorsOf(res.Rsp)
 	if len(res.IntentErrors) > 0 {
+		h.FreeSlot(res.TxID)
 		return res
 	}
 	res.OK = true
